@@ -67,3 +67,20 @@ def perturb_arithmetic(seed, rel=1e-12):
         for name, f in saved.items():
             setattr(mf, name, f)
     return restore
+
+
+def lift_reduction_bound(factor=1000):
+    """Counterfactual for known finding F4: the rewriter never gives up.  REDUCTION_STEPS_BOUND is a
+    module global read at call time.  Returns restore()."""
+    try:
+        import smoothmath._private.base_expression.expression as be
+    except ImportError as e:
+        raise Unavailable(str(e))
+    old = getattr(be, "REDUCTION_STEPS_BOUND", None)
+    if not isinstance(old, int):
+        raise Unavailable("REDUCTION_STEPS_BOUND not found")
+    be.REDUCTION_STEPS_BOUND = old * factor
+
+    def restore():
+        be.REDUCTION_STEPS_BOUND = old
+    return restore
